@@ -410,6 +410,13 @@ def check_property(pid, tier, scratch, write_baseline=False):
                                      bound="see the header of contracts/bounded/%s.rs" % u))
             if br["ran"]:
                 for fl in br["failures"]:
+                    # a failing input that KNOWN_FINDINGS.txt lists (same clause, same site) is reported as KNOWN-FINDING by every check
+                    # whose harness runs into it - whatever property this check is about - and is not a violation
+                    kh = next((k for k in kf if k.get("site") == fl["function"] and (k.get("obligation") or "").replace("~bounded", "") == fl["clause"]), None)
+                    if kh is not None:
+                        if not any(h is kh for h, _ in known_hits):
+                            known_hits.append((kh, dict(obligation=fl["clause"] + "~bounded", fn=fl["function"], unit=u, failing_input=dict(found=True, input=fl["input"], clause=fl["clause"]))))
+                        continue
                     bfail.setdefault((u, fl["function"]), []).append(fl)
             else:
                 for q in fns:
